@@ -85,7 +85,17 @@ BASELINE_MISSED = {"C02-2": "C02 now sets stream trailers that share keys with t
  "C19r6-3": "the recovery function returns a 2.5 KB message (a stack trace)",
  "C06r7-1": "JSON error bodies whose code is no Connect code name are not protocol-level errors (status decides); this also exposed that clampLengths had been corrupting unary Connect JSON bodies in the generator",
  "C08r7-1": "reference servers may compress their final end-of-stream envelope / gRPC-Web trailer frame (refwire knob CompressEnd)",
- "C11r7-1": "-Bin values in the padded base64 spelling"}
+ "C11r7-1": "-Bin values in the padded base64 spelling",
+ "C01r8-1": "NOT detected, and not a violation: Msg() is documented to be overwritten by the next Receive; the yielded sequence is unchanged",
+ "C02r8-1": "NOT detected (open gap): one field name under two map keys that differ only in case in the error metadata",
+ "C04r8-1": "cuts of COMPRESSED unary Connect bodies are asserted (the compression format marks its own end); the empty body stays exempt",
+ "C05r8-1": "the reference server may compress a unary Connect error document / its final end-of-stream or trailer frame (CompressEnd)",
+ "C07r8-1": "fault class nomessage: an enveloped unary / server-stream request without any envelope",
+ "C08r8-1": "NOT detected (grey zone, unasserted): empty body under an unknown Content-Encoding",
+ "C14r8-1": "NOT detected (open gap): server stream over HTTP/1.1 abandoned with Close() while the handler keeps sending",
+ "C15r8-1": "NOT detected (open gap): context ends while an over-limit message is being skipped",
+ "C17r8-1": "trailing comments on rpcs (one or several lines, '*/', blank lines)",
+ "C19r8-1": "another, non-panicking call through the same handler starts and returns while the handler under test pauses before its panic"}
 rows = []
 for d in sorted(glob.glob(os.path.join(ROOT, "seeded", "C*-*"))):
     name = os.path.basename(d)
@@ -110,6 +120,8 @@ for d in sorted(glob.glob(os.path.join(ROOT, "seeded", "C*-*"))):
         note = "round 6: " + note
     if "r7-" in name:
         note = "round 7: " + note
+    if "r8-" in name:
+        note = "round 8: " + note
     rows.append("| %s | %s | %s | %s | %s | %s |" % (name, summ, needs, "yes" if valid else "NO", ", ".join(det) or "**not detected**", note))
 table = "| seeded | change | needs | confirmed (applies, suite passes, demo fails/passes) | detected by `./verif check <prop>` | history |\n|---|---|---|---|---|---|\n" + "\n".join(rows)
 p = os.path.join(ROOT, "DESIGN.md")
